@@ -538,6 +538,32 @@ def cases(rng, ctx):
                 c2[k] = retype(c[k])
         if any(c2[k] is not c[k] for k in keys):
             out.append(c2)
+    # (2c) other routes by which the same host value reaches the comparison: answered by the host's cell listener, returned by a
+    # host function (what arrives is the value - an empty text is an empty text, a logical a logical). All pairs of the general
+    # pool with the left, the right or both operands re-routed (a seeded share), and a seeded share of the other pairs and triples
+    def reroute(o, via=None):
+        if 'e' in o:
+            return o
+        return dict(o, via=via or rng.choice(['cell', 'fn']))
+    for via in ('cell', 'fn'):
+        for a in G:
+            for b in G:
+                r = rng.random()
+                if r < 0.25:
+                    out.append({'kind': 'pair', 'a': reroute(a, via), 'b': b, 'tz': None})
+                elif r < 0.5:
+                    out.append({'kind': 'pair', 'a': a, 'b': reroute(b, via), 'tz': None})
+                elif r < 0.6:
+                    out.append({'kind': 'pair', 'a': reroute(a, via), 'b': reroute(b), 'tz': None})
+    base = [c for c in out if c.get('tz') is None and not any('via' in c[k] for k in ('a', 'b'))]
+    for c in rng.sample(base, min(len(base), (3000 if thorough else 300) * scale)):
+        c2 = dict(c)
+        keys = ['a', 'b'] + (['c'] if c['kind'] == 'triple' else [])
+        for k in keys:
+            if rng.random() < 0.5:
+                c2[k] = reroute(c[k])
+        if any(c2[k] is not c[k] for k in keys):
+            out.append(c2)
     # (3) the date-related part once more under a process time zone with daylight saving
     zones = TZS if thorough else [TZ_MAIN]
     for tz in zones:
@@ -577,11 +603,19 @@ def request(c):
 _p = [None]
 
 
+_route = {}
+
+
 def parser():
     if _p[0] is None:
         common.load_repo()
         import hotxlfp
-        _p[0] = hotxlfp.Parser()
+        p = hotxlfp.Parser()
+        # the routes of (2c): the cells A1 / B1 answered by a listener, the host functions GX() / GY()
+        p.on('callCellValue', lambda cell, setter: setter(_route.get(cell.label)))
+        p.set_function('GX', lambda: _route.get('GX'))
+        p.set_function('GY', lambda: _route.get('GY'))
+        _p[0] = p
     return _p[0]
 
 
@@ -615,11 +649,17 @@ def ev(op, a, b, tz, ka=None, kb=None):
         p = parser()
         if 'e' in a:
             ta = '(' + a['e'] + ')'
+        elif a.get('via'):
+            ta = 'A1' if a['via'] == 'cell' else 'GX()'
+            _route[ta[:2]] = var_value(a)
         else:
             ta = 'x'
             p.set_variable('x', var_value(a))
         if 'e' in b:
             tb = '(' + b['e'] + ')'
+        elif b.get('via'):
+            tb = 'B1' if b['via'] == 'cell' else 'GY()'
+            _route[tb[:2]] = var_value(b)
         else:
             tb = 'y'
             p.set_variable('y', var_value(b))
@@ -653,6 +693,8 @@ def operand_value(o):
 def show(o):
     if 'e' in o:
         return '`%s`' % o['e']
+    if o.get('via'):
+        return '%r (%s)' % (var_value(o), 'answered by the cell listener' if o['via'] == 'cell' else 'returned by a host function')
     return repr(var_value(o))
 
 
